@@ -8,6 +8,10 @@ Streams
             INSTALLED in a rig handler and driven with the matching line/call events (3 hits each, scripted clock):
             snapshot pushed / log emitted / metric call / span opened are observed per tracepoint id and per place;
   register  the same tracepoints registered in code (TracepointConfigService.add_custom) and driven the same way.
+  argint    argument VALUES read as integers: odd texts (' 3 ', non-ASCII digits, '1_0', '+2', '1e3', ''), None, bool, int,
+            float, nan, inf, other objects through the real TracePointConfig.get_arg_int / fire_count and
+            LocationAction.fire_count / fire_period, against the translated get_arg_int / __get_int and an int()-free
+            reference;
   redeliver multi-action tracepoints x a SECOND UPDATE response that still contains them (same set / others added or
             removed / reordered) x hits after (and, where it cannot matter, before) the re-delivery, through the real
             convert_response + update_new_config; every action judged on its own fire count / fire period;
@@ -25,13 +29,13 @@ import core
 from rig import Rig, MockFrame
 
 ID = 'C11'
-EXTRACT = ['trigger_table']
+EXTRACT = ['trigger_table', 'tp_args']
 LEAN_TARGETS = ['DeepModel.Props.C11']
 AUDIT = 'DeepModel/Audit/C11.lean'
 DRIVER = 'DeepModel/Driver/C11.lean'
 EXHAUSTIVE = True
 CHUNK = 1024
-BUDGET = {'quick': 64 + 500, 'thorough': 64 + 30000}
+BUDGET = {'quick': 64 + 600, 'thorough': 64 + 30000}
 TIME = {'quick': 70, 'thorough': 800}
 RULE = ('table: every combination of stage{absent,6 stages,unknown} x method_name{absent,given} x span{absent,line,method,'
         'unknown} x snapshot{absent,collect,no_collect,unknown} x log_msg x condition x fire_count x fire_period x '
@@ -52,7 +56,10 @@ RULE = ('table: every combination of stage{absent,6 stages,unknown} x method_nam
 TRUSTED = ['protobuf runtime: a TracePointConfig built from the case, serialised and parsed (what convert_response is '
            'given), reads back the same args/watches/metrics',
            'rig.MockFrame events stand for CPython line/call events (location matching itself is C03)']
-ASSUMPTIONS = ['START/END/CAPTURE positions are not interpreted by the agent (DESIGN §6); two tracepoints on one line '
+ASSUMPTIONS = ['argument values that are neither text nor numbers (None, an infinite float, other objects — possible only '
+               'through register_tracepoint, whose args are typed Dict[str, str]) make int() raise TypeError/OverflowError, which '
+               'the agent does not catch in fire_count/fire_period: modelled as an outcome and compared with the model, not judged',
+               'START/END/CAPTURE positions are not interpreted by the agent (DESIGN §6); two tracepoints on one line '
                'with different stages share one trigger and the first position',
                'a method-stage tracepoint without method_name sits on the same driven files as the others; the frames have '
                'no source on disk (mock frames, like code compiled from a string), so it can never match: it is expected '
@@ -615,11 +622,21 @@ def run_redeliver(case):
         id_to_idx = {tp['id']: i for i, tp in enumerate(case['tps'])}
         id_to_idx.update(case['metric_owner_idx'])
         obs = {'phases': []}
+        kept = []           # (trigger object, its action objects) of every conversion so far — references held, so ids stay unique
         for p, which in enumerate((case['first'], case['second'])):
             try:
                 triggers = g.convert_response([proto_tp(case['tps'][i]) for i in which])
                 if p == 1:
                     obs['triggers'] = [dump_trigger(t) for t in triggers]
+                    # aliasing probe: the second conversion shares no Trigger and no action OBJECT with the first, and
+                    # has not changed what the first one's triggers hold (merge_actions mutates its receiver)
+                    old_t = {id(t) for t, _ in kept}
+                    old_a = {id(a) for _, acts in kept for a in acts}
+                    obs['alias'] = {
+                        'shared_triggers': sum(1 for t in triggers if id(t) in old_t),
+                        'shared_actions': sum(1 for t in triggers for a in t.actions if id(a) in old_a),
+                        'first_changed': sum(1 for t, acts in kept if [id(a) for a in t.actions] != [id(a) for a in acts])}
+                kept += [(t, list(t.actions)) for t in triggers]
                 svc.update_new_config(p + 1, 'h%d' % (p + 1), triggers)
             except Exception as e:  # noqa: B902
                 obs['raised'] = f'UPDATE response {p + 1}: {type(e).__name__}: {e}'
@@ -630,6 +647,9 @@ def run_redeliver(case):
                 obs['raised'] = f'trace_call after UPDATE response {p + 1}: {type(e).__name__}: {e}'
                 return obs
             obs['phases'].append(eff)
+        # … and driving the second configuration has not grown the first one's triggers either
+        obs['alias']['first_changed_after_hits'] = sum(
+            1 for t, acts in kept if [id(a) for a in t.actions] != [id(a) for a in acts])
         return obs
     finally:
         rig.close()
@@ -649,8 +669,128 @@ def redeliver_expected(case, reset):
     return [e0, e1]
 
 
+# ---- argument values read as integers -------------------------------------------------------------------------------
+def dec_val(e):
+    if e is None:
+        return None
+    if e == 'nan':
+        return float('nan')
+    if e == 'inf':
+        return float('inf')
+    if e == 'other':
+        return ['a', 'list']
+    (k, v), = e.items()
+    if k == 'float':
+        return v['value']
+    return v
+
+
+def model_val(e):
+    """how the value is described to the model: a finite float by its truncation (math.trunc, not int())"""
+    import math
+    if isinstance(e, dict) and 'float' in e:
+        return {'float': math.trunc(e['float']['value'])}
+    return e
+
+
+def outcome(fn):
+    try:
+        v = fn()
+        if isinstance(v, bool) or not isinstance(v, int):
+            return {'value': repr(v)}
+        return {'ok': v}
+    except Exception as e:  # noqa: B902
+        return {'raised': type(e).__name__}
+
+
+def val_dump(v):
+    if v is None:
+        return None
+    if isinstance(v, bool):
+        return {'bool': v}
+    if isinstance(v, str):
+        return {'str': v}
+    if isinstance(v, int):
+        return {'int': v}
+    if isinstance(v, float):
+        import math
+        return 'nan' if v != v else 'inf' if v in (float('inf'), float('-inf')) else {'float': math.trunc(v)}
+    return 'other'
+
+
+def run_argint(case):
+    from deep.api.tracepoint.tracepoint_config import TracePointConfig
+    from deep.api.tracepoint.trigger import LocationAction
+    args = {k: dec_val(e) for k, e in case['args'].items()}
+    tp = TracePointConfig('tp', 'host.py', 7, dict(args), [], [])
+    act = LocationAction('tp', None, dict(args), LocationAction.ActionType.Snapshot)
+    return {'get_arg_int': outcome(lambda: tp.get_arg_int(case['name'], case['default'])),
+            'tp_fire_count': outcome(lambda: tp.fire_count),
+            'loc_fire_count': outcome(lambda: act.fire_count),
+            'loc_fire_period': outcome(lambda: act.fire_period),
+            'tp_frame_type': val_dump(tp.frame_type), 'tp_condition': val_dump(tp.condition)}
+
+
+INT_TEXT = None
+
+
+def ref_int_of(e, default):
+    """the statement's reading, written without int(): integer TEXT (optional sign, decimal digits of any script with
+    single underscores between digits, surrounding white space) is that integer, bool/int/finite float are numbers,
+    anything else that is text or NaN is unparsable -> the default; None / infinity / other objects: no number AND no
+    text -> 'outside' (the argument type is Dict[str, str]; see ASSUMPTIONS)"""
+    import re
+    import unicodedata
+    global INT_TEXT
+    if INT_TEXT is None:
+        # white space as int() strips it: the six ASCII ones and the non-ASCII Unicode spaces (NOT \\x1c-\\x1f, which
+        # str.isspace() accepts but int() does not)
+        ws = '[ \\t\\n\\r\\x0b\\x0c\\x85\\xa0\\u1680\\u2000-\\u200a\\u2028\\u2029\\u202f\\u205f\\u3000]*'
+        INT_TEXT = re.compile('^' + ws + r'([+-]?)(\d+(?:_\d+)*)' + ws + '$')
+    if e is None or e in ('inf', 'other'):
+        return 'outside'
+    if e == 'nan':
+        return default
+    (k, v), = e.items()
+    if k == 'bool':
+        return 1 if v else 0
+    if k == 'int':
+        return v
+    if k == 'float':
+        import math
+        return math.trunc(v['value'])
+    m = INT_TEXT.match(v)
+    if not m or any(unicodedata.decimal(c, None) is None for c in m.group(2) if c != '_'):
+        return default
+    n = 0
+    for c in m.group(2):
+        if c != '_':
+            n = n * 10 + unicodedata.decimal(c)
+    return -n if m.group(1) == '-' else n
+
+
+def oracle_argint(case, obs):
+    v = []
+    for what, key, dflt in (('get_arg_int(%r, %d)' % (case['name'], case['default']), case['name'], case['default']),
+                            ('TracePointConfig.fire_count', 'fire_count', 1),
+                            ('LocationAction.fire_count', 'fire_count', 1),
+                            ('LocationAction.fire_period', 'fire_period', 1000)):
+        field = {'g': 'get_arg_int', 'T': 'tp_fire_count'}.get(what[0]) or ('loc_fire_count' if 'count' in what else 'loc_fire_period')
+        exp = ref_int_of(case['args'][key], dflt) if key in case['args'] else dflt
+        got = obs[field]
+        if exp == 'outside':
+            if 'ok' in got or 'value' in got:
+                v.append(f'{what} of {case["args"].get(key)!r} returned {got}; it is neither a number nor text')
+        elif got != {'ok': exp}:
+            v.append(f'{what} with {key}={case["args"].get(key, "<absent>")!r}: {got}, the value asks for {exp} '
+                     f'(default {dflt})')
+    return v
+
+
 def run_impl(case):
     k = case['kind']
+    if k == 'argint':
+        return run_argint(case)
     if k == 'redeliver':
         return run_redeliver(case)
     if k == 'both':
@@ -732,9 +872,15 @@ def oracle(case, obs):
     v = []
     if k == 'providers':
         return oracle_providers(case, obs)
+    if k == 'argint':
+        return oracle_argint(case, obs)
     if k == 'redeliver':
         if 'raised' in obs:
             return ['the configuration was lost / the handler raised: ' + obs['raised']]
+        al = obs.get('alias', {})
+        if any(al.values()):
+            v.append(f'two successive UPDATE responses share objects / a later conversion changed an earlier trigger: {al} '
+                     f'(every response must be built anew; merge_actions mutates its receiver)')
         exp = redeliver_expected(case, reset=False)
         names = {'snap': 'snapshot', 'log': 'log line', 'metric': 'metric call', 'span': 'span'}
         for p, (got_p, exp_p) in enumerate(zip(obs['phases'], exp)):
@@ -861,6 +1007,9 @@ def model_request(case, obs):
         return dict(case['tp'], op='build')
     if k == 'both':
         return dict(case['tp'], op='build')
+    if k == 'argint':
+        return {'op': 'argint', 'args': {a: model_val(e) for a, e in case['args'].items()}, 'name': case['name'],
+                'default': case['default']}
     if k == 'redeliver':
         return {'op': 'response', 'tps': [case['tps'][i] for i in case['second']]} if 'triggers' in obs else None
     if k == 'providers':
@@ -877,6 +1026,14 @@ def compare(case, obs, resp):
     if 'error' in resp:
         return ['model error: ' + resp['error']]
     k = case['kind']
+    if k == 'argint':
+        d = []
+        for f in ('get_arg_int', 'tp_fire_count', 'loc_fire_count', 'loc_fire_period', 'tp_frame_type', 'tp_condition'):
+            if obs[f] != resp[f]:
+                d.append(f'{f} of {json.dumps(case["args"], ensure_ascii=True)[:200]}: implementation {obs[f]} model {resp[f]}')
+        if resp['get_arg_int'] != resp['loc_get_int']:
+            d.append('model: get_arg_int and __get_int differ')
+        return d
     if k == 'redeliver':
         if resp.get('lost'):
             return ['model: the whole response is lost; implementation converted it']
@@ -1146,6 +1303,36 @@ def gen_redeliver(rng):
         return case
 
 
+INT_TEXTS = [' 3 ', '\u0661\u0662', '1_0', '+2', '1e3', '', '-1', '0', '007', '١٢٣', '-१०', '\u00a07\u3000', '1\u0662',
+             '1__0', '_1', '1_', '+', '- 1', '1.5', '0x10', 'abc', '²', '\u2160', '１２', '12\u200b', ' \t-5\n', '9' * 30,
+             '\x1c4', 'True', 'None', '٣_٤', '1 0', '+-1', '٠', '𝟙𝟚']
+
+
+def gen_argint(rng):
+    def val():
+        r = rng.random()
+        if r < 0.62:
+            t = rng.choice(INT_TEXTS)
+            if rng.random() < 0.15:
+                t = rng.choice([' ', '\u2003', '\n', '']) + t + rng.choice([' ', '\u00a0', ''])
+            return {'str': t}
+        if r < 0.70:
+            return None
+        if r < 0.78:
+            return {'bool': rng.random() < 0.5}
+        if r < 0.86:
+            return {'int': rng.choice([0, 1, -1, 7, 10 ** 20, -3])}
+        if r < 0.94:
+            return {'float': {'value': rng.choice([2.7, -2.7, 0.0, 1e3, 5.0, -0.5, 1e22])}}
+        return rng.choice(['nan', 'inf', 'other'])
+    args = {}
+    for k in ('fire_count', 'fire_period', 'frame_type', 'condition', 'x'):
+        if rng.random() < 0.75:
+            args[k] = val()
+    return {'kind': 'argint', 'args': args, 'name': rng.choice(['x', 'x', 'fire_count', 'missing']),
+            'default': rng.choice([1, 0, -1, 1000])}
+
+
 def gen_providers(rng):
     n_m = rng.choice([2, 2, 3, 3, 4])
     n_p = rng.choice([2, 2, 3])
@@ -1180,15 +1367,17 @@ def gen(rng, tier):
         r = rng.random()
         if r < 0.10:
             yield gen_redeliver(rng)
-        elif r < 0.15:
+        elif r < 0.22:
+            yield gen_argint(rng)
+        elif r < 0.27:
             tp, _ = gen_tp(rng, 0)
             tp['args'].pop('condition', None)
             yield {'kind': 'both', 'tp': tp}
-        elif r < 0.24:
+        elif r < 0.35:
             yield gen_providers(rng)
-        elif r < 0.55:
+        elif r < 0.62:
             yield gen_list(rng, 'response')
-        elif r < 0.78:
+        elif r < 0.82:
             yield gen_list(rng, 'register')
         else:
             yield gen_build(rng)
@@ -1250,6 +1439,12 @@ def corpus():
 # ------------------------------------------------------------------------------------- bookkeeping
 def label(case, obs):
     k = case['kind']
+    if k == 'argint':
+        def cls(e):
+            return 'absent' if e == 'absent' else 'none' if e is None else e if isinstance(e, str) else list(e)[0]
+        fc = case['args'].get('fire_count', 'absent')
+        o = obs.get('loc_fire_count', {})
+        return 'argint/fire_count=%s/%s' % (cls(fc), 'raised' if 'raised' in o else 'default' if o == {'ok': 1} else 'value')
     if k == 'redeliver':
         both = [i for i in case['first'] if i in case['second']]
         return 'redeliver/%s/%s/max%d-actions' % (
@@ -1286,6 +1481,9 @@ def nontrivial(case, obs):
         return any(sum(1 for kind in e if e[kind]) >= 2 for per in exp for e in per.values())
     if case['kind'] == 'providers':
         return any(m < len(case['tp']['metrics']) - 1 for _, m in case['fail'])
+    if case['kind'] == 'argint':
+        return any(isinstance(e, dict) and 'str' in e and any(ord(c) > 127 for c in e['str']) for e in case['args'].values()) \
+            or any(not isinstance(e, dict) or 'str' not in e for e in case['args'].values())
     if case['kind'] in ('table', 'build', 'both'):
         return False
     specs = [spec_trigger(tp) for tp in case['tps']]
@@ -1295,6 +1493,10 @@ def nontrivial(case, obs):
 
 def shrink(case):
     k = case['kind']
+    if k == 'argint':
+        for key in list(case['args']):
+            yield dict(case, args={a: b for a, b in case['args'].items() if a != key})
+        return
     if k == 'redeliver':
         for which in ('first', 'second'):
             for j in range(len(case[which])):
